@@ -37,7 +37,78 @@ type C04Holder struct {
 	N int64          `json:"n"`
 }
 
+// C04Node: a struct-mapped object that refers to ITSELF (linked list / tree): through an optional reference on a
+// pointer field, and through a list of references.  The schema is mapped to *C04Node, so an absent `next` stays nil.
+type C04Node struct {
+	Value string     `json:"value"`
+	Next  *C04Node   `json:"next"`
+	Kids  []*C04Node `json:"kids"`
+	Other *C04Node   `json:"other"`
+}
+
+// C04Emb / C04EmbPtr: properties on PROMOTED fields, through an embedded struct and through an embedded struct pointer
+// (nil until a promoted field is written; a nil one means "every promoted property absent").
+type C04Emb struct {
+	C04Inner
+	C int64 `json:"c"`
+}
+type C04EmbPtr struct {
+	*C04Inner
+	C int64 `json:"c"`
+}
+
+func c04EmbProps(empty bool) map[string]*schema.PropertySchema {
+	return map[string]*schema.PropertySchema{
+		"a": c04Prop(schema.NewIntSchema(nil, nil, nil), false, nil, empty),
+		"s": c04Prop(schema.NewStringSchema(nil, nil, nil), false, nil, empty),
+		"c": c04Prop(schema.NewIntSchema(nil, nil, nil), false, nil, false),
+	}
+}
+
+// c04NodeSchema: scope(Node{value, next: ref Node, kids: list of ref Node [, other: ref Node with a declared default]})
+func c04NodeSchema(withDefault bool) schema.Type {
+	props := map[string]*schema.PropertySchema{
+		"value": c04Prop(schema.NewStringSchema(nil, nil, nil), false, sp("\"v\""), false),
+		"next":  c04Prop(schema.NewRefSchema("Node", nil), false, nil, false),
+		"kids":  c04Prop(schema.NewListSchema(schema.NewRefSchema("Node", nil), nil, nil), false, nil, false),
+	}
+	if withDefault {
+		props["other"] = c04Prop(schema.NewRefSchema("Leaf", nil), false, sp("{\"value\":\"d\"}"), false)
+		return schema.NewScopeSchema(schema.NewStructMappedObjectSchema[*C04Node]("Node", props), c04LeafSchema())
+	}
+	return schema.NewScopeSchema(schema.NewStructMappedObjectSchema[*C04Node]("Node", props))
+}
+
+func c04LeafSchema() *schema.ObjectSchema {
+	return schema.NewStructMappedObjectSchema[*C04Node]("Leaf", map[string]*schema.PropertySchema{
+		"value": c04Prop(schema.NewStringSchema(nil, nil, nil), false, nil, false),
+	})
+}
+
+// c04NodeRaw: a finite list / tree; the recursive properties are absent at the leaves
+func c04NodeRaw(r *Rng, depth int) *sx.Node {
+	mt := pick(r, []*sx.Node{tAnyMap, tStrMap})
+	n := sx.L(sx.A("m"), mt, sx.A("0"))
+	if r.Chance(70) {
+		n.Append(sx.L(vS("value"), vS(pick(r, []string{"leaf", "", "x"}))))
+	}
+	if depth > 0 && r.Chance(60) {
+		n.Append(sx.L(vS("next"), c04NodeRaw(r, depth-1)))
+	}
+	if depth > 0 && r.Chance(40) {
+		kids := vSl(tAnySlice)
+		for i := 0; i < r.Intn(3); i++ {
+			kids.Append(c04NodeRaw(r, depth-1))
+		}
+		n.Append(sx.L(vS("kids"), kids))
+	}
+	return n
+}
+
 func init() {
+	registerStruct(reflect.TypeOf(C04Node{}))
+	registerStruct(reflect.TypeOf(C04Emb{}))
+	registerStruct(reflect.TypeOf(C04EmbPtr{}))
 	registerStruct(reflect.TypeOf(C04Holder{}))
 	registerStruct(reflect.TypeOf(C04Inner{}))
 	registerStruct(reflect.TypeOf(C04Outer{}))
@@ -80,6 +151,24 @@ var c04StructSchemas = map[string]func() schema.Type{
 	// a struct-mapped parent whose member is a map-based object: plain, and referring to itself
 	"holder-plain-member": func() schema.Type { return c04HolderSchema(false) },
 	"holder-recursive-member": func() schema.Type { return c04HolderSchema(true) },
+	// a struct-mapped object (mapped to a pointer type) that refers to itself through an optional reference and through a list
+	// treat-empty-as-default properties whose reflected type cannot / can be converted to the Go type of the field (D64)
+	"inner-loose-empty-is-default": func() schema.Type {
+		return schema.NewStructMappedObjectSchema[C04Inner]("C04Inner", map[string]*schema.PropertySchema{
+			"a": c04Prop(schema.NewStringSchema(nil, nil, nil), false, nil, true), // string property on an int64 field
+			"s": c04Prop(schema.NewIntSchema(nil, nil, nil), false, nil, true),    // int property on a string field
+		})
+	},
+	// properties on promoted fields of an embedded struct / embedded struct pointer, plain and treat-empty-as-default
+	"emb-struct": func() schema.Type { return schema.NewStructMappedObjectSchema[C04Emb]("C04Emb", c04EmbProps(false)) },
+	"emb-pointer": func() schema.Type {
+		return schema.NewStructMappedObjectSchema[C04EmbPtr]("C04EmbPtr", c04EmbProps(false))
+	},
+	"emb-pointer-empty-is-default": func() schema.Type {
+		return schema.NewStructMappedObjectSchema[*C04EmbPtr]("C04EmbPtr", c04EmbProps(true))
+	},
+	"node-self-reference":         func() schema.Type { return c04NodeSchema(false) },
+	"node-self-reference-default": func() schema.Type { return c04NodeSchema(true) },
 }
 
 func c04HolderSchema(recursive bool) schema.Type {
@@ -213,8 +302,46 @@ func init() {
 					}
 				}
 				// raw maps: valid, and with a pool value at every position
+				isNode := len(name) >= 4 && name[:4] == "node"
+				if isNode {
+					tNode := tStruct("C04Node")
+					leaf := vSt("C04Node", sx.S("Value"), vS("leaf"))
+					chain := vSt("C04Node", sx.S("Value"), vS("a"), sx.S("Next"), vPtr(tPtr(tNode), leaf), sx.S("Kids"), vSl(tSlice(tPtr(tNode)), vPtr(tPtr(tNode), leaf), vPtr(tPtr(tNode), nil)))
+					for _, nv := range []*sx.Node{vPtr(tPtr(tNode), leaf), vPtr(tPtr(tNode), chain), vPtr(tPtr(tNode), nil), leaf, chain, vPtr(tPtr(tNode), vSt("C04Node"))} {
+						ops = append(ops, op("v", nv), op("s", nv), op("c", nv), op("u", nv))
+					}
+				}
+				isEmb := len(name) >= 3 && name[:3] == "emb"
+				if isEmb {
+					tIn, tE, tEP := tStruct("C04Inner"), tStruct("C04Emb"), tStruct("C04EmbPtr")
+					in := c04InnerVal(1, "x")
+					nilIn := vPtr(tPtr(tIn), nil)
+					for _, nv := range []*sx.Node{
+						vSt("C04Emb", sx.S("C04Inner"), in, sx.S("C"), vI("i64", 2)), vSt("C04Emb"), vPtr(tPtr(tE), vSt("C04Emb", sx.S("C"), vI("i64", 2))),
+						vSt("C04EmbPtr", sx.S("C04Inner"), vPtr(tPtr(tIn), in), sx.S("C"), vI("i64", 2)), vSt("C04EmbPtr", sx.S("C04Inner"), nilIn, sx.S("C"), vI("i64", 2)),
+						vSt("C04EmbPtr"), vPtr(tPtr(tEP), vSt("C04EmbPtr", sx.S("C"), vI("i64", 2))), vPtr(tPtr(tEP), vSt("C04EmbPtr", sx.S("C04Inner"), vPtr(tPtr(tIn), c04InnerVal(0, "")))),
+						vPtr(tPtr(tEP), nil)} {
+						ops = append(ops, op("v", nv), op("s", nv), op("c", nv), op("u", nv))
+					}
+					for _, raw := range []*sx.Node{vM(tStrMap, vS("c"), vI("i64", 2)), vM(tAnyMap, vS("a"), vI("i64", 1)), vM(tStrMap, vS("s"), vS("")),
+						vM(tAnyMap, vS("a"), vU("u64", 1), vS("s"), vS("x"), vS("c"), vI("i64", 3))} {
+						ops = append(ops, op("u", raw), op("c", raw))
+					}
+				}
 				for b := 0; b < nRaw; b++ {
 					raw := c04StructRaw(r)
+					if isNode {
+						raw = c04NodeRaw(r, 3)
+					}
+					if isEmb {
+						mt := pick(r, []*sx.Node{tAnyMap, tStrMap})
+						raw = sx.L(sx.A("m"), mt, sx.A("0"))
+						for _, kv := range [][2]*sx.Node{{vS("a"), pickRepr(r, int64(r.Intn(5)))}, {vS("s"), vS(pick(r, []string{"", "x"}))}, {vS("c"), pickRepr(r, int64(r.Intn(5)))}} {
+							if r.Chance(50) {
+								raw.Append(sx.L(kv[0], kv[1]))
+							}
+						}
+					}
 					ops = append(ops, op("u", raw), op("c", raw))
 					for _, pos := range c04Positions(raw) {
 						chosen := pool
